@@ -21,6 +21,7 @@ import (
 	"path"
 	"strings"
 	"sync"
+	"sync/atomic"
 	"time"
 
 	"github.com/coredns/coredns/plugin"
@@ -104,7 +105,10 @@ type FBDNSDB struct {
 	reloadMu      sync.RWMutex
 	done          chan struct{}
 	lru           *lru.Cache
-	logger        Logger
+	// cacheGeneration counts completed reloads; a cached response is only valid for the
+	// generation it was computed in. Accessed atomically.
+	cacheGeneration uint64
+	logger          Logger
 	stats         stats.Stats
 	Next          plugin.Handler
 }
@@ -360,6 +364,9 @@ func (h *FBDNSDB) Reload(s ReloadSignal) (err error) {
 	h.dnsdb = newDB
 	h.dbConfig.Path = newPath
 
+	// responses computed before this point must not be served from the cache any more,
+	// including those a query still in flight inserts after the purge below
+	atomic.AddUint64(&h.cacheGeneration, 1)
 	if h.cacheConfig.Enabled && h.lru != nil {
 		h.lru.Purge()
 	}
